@@ -101,7 +101,7 @@ def main():
              "kind_free_text": "Rust harness linking the real conserve library with the verif_hooks transport interceptor: workload generators, fault/crash/schedule injection at the storage boundary, independent format-0.6 reader/writer, snapshot oracles, evidence writer"},
         ],
         "checks": checks,
-        "notes": "Runtime monitoring only: every verdict comes from oracles observing executions of the real code. Exit 0 held on everything explored, 1 + VIOLATION line, 2 inconclusive (monitors observed too little; never expected on a working tree). Known findings: /verif/KNOWN_FINDINGS.txt (20 'fixed:' lines for the fix: commits in /repo, one 'known:' line - K2, property C04 - which C04 prints as KNOWN-FINDING on every run; see DESIGN.md section 5). A hard wall-clock watchdog (CV_HARD_S) ends a hung check with exit 2.",
+        "notes": "Runtime monitoring only: every verdict comes from oracles observing executions of the real code. Exit 0 held on everything explored, 1 + VIOLATION line, 2 inconclusive (monitors observed too little; never expected on a working tree). Known findings: /verif/KNOWN_FINDINGS.txt (21 'fixed:' lines for the fix: commits in /repo, one 'known:' line - K2, property C04 - which C04 prints as KNOWN-FINDING on every run; see DESIGN.md section 5). A hard wall-clock watchdog (CV_HARD_S) ends a hung check with exit 2.",
         "not_applicable": na,
     }
     path = os.path.join(HERE, "MANIFEST.json")
